@@ -6,8 +6,8 @@ import hashlib, json, os, shutil, subprocess, sys, tempfile, time, fcntl
 VERIF = os.path.dirname(os.path.dirname(os.path.abspath(__file__)))
 REPO = os.environ.get('VERIF_REPO', '/repo')
 CACHE = os.environ.get('VERIF_CACHE') or os.path.join(VERIF, '.cache')
-DRIVER = os.path.join(VERIF, 'factdump', 'target', 'release', 'factdump')
-TMPLX = os.path.join(VERIF, 'tmplx', 'target', 'release', 'tmplx')
+DRIVER = os.environ.get('VERIF_DRIVER') or os.path.join(VERIF, 'factdump', 'target', 'release', 'factdump')
+TMPLX = os.environ.get('VERIF_TMPLX') or os.path.join(VERIF, 'tmplx', 'target', 'release', 'tmplx')
 
 def sh(cmd, **kw):
     return subprocess.run(cmd, stdout=subprocess.PIPE, stderr=subprocess.PIPE, text=True, **kw)
